@@ -189,7 +189,10 @@ VARIANTS = {
         M('intensity-not-one',
           (RG, 'intensity = np.ones_like(x1)', 'intensity = np.zeros_like(x1)')),
         M('vignetting-enlarges',
-          (OP, 'Px = distribution.x * (1 - vx)', 'Px = distribution.x * (1 + vx)')),
+          (RG, 'vx, vy = 1 - np.array(self.optic.fields.get_vig_factor(Hx, Hy))',
+           'vx, vy = 1 + np.array(self.optic.fields.get_vig_factor(Hx, Hy))')),
+        M('vignetting-applied-twice',
+          (OP, '        Px = distribution.x\n', '        Px = distribution.x * (1 - vx)\n')),
         M('ring-radius-two',
           (O + 'distribution.py', 'x = np.cos(theta)\n        y = np.sin(theta)',
            'x = 2 * np.cos(theta)\n        y = 2 * np.sin(theta)')),
@@ -219,7 +222,8 @@ VARIANTS = {
         M('propagate-z-only',
           (O + 'rays/paraxial_rays.py', 'self.y += t * self.u',
            'self.y += self.u')),
-        M('F2-sign', (PX, 'F2 = -y[-1] / u[-1]', 'F2 = y[-1] / u[-1]')),
+        M('F2-sign', (PX, 'F2 = -y[-1] / u[-2]', 'F2 = y[-1] / u[-2]')),
+        M('F2-slope-after-image', (PX, 'F2 = -y[-1] / u[-2]', 'F2 = -y[-1] / u[-1]')),
         M('EPL-forward-trace',
           (PX, "        y, u = self._trace_generic(y0, u0, z0, wavelength, "
                "reverse=True,\n                                   "
@@ -247,7 +251,7 @@ VARIANTS = {
           (SS, 'rays.u = 1 / n2 * (n1 * rays.u - rays.y * power)',
            'rays.u = (n1 * rays.u - power * rays.y) / n2')),
         T('F2-temp',
-          (PX, 'F2 = -y[-1] / u[-1]', 'num = -y[-1]\n        F2 = num / u[-1]')),
+          (PX, 'F2 = -y[-1] / u[-2]', 'num = -y[-1]\n        F2 = num / u[-2]')),
     ],
     'C07': [
         M('propagate-squared',
@@ -331,8 +335,13 @@ VARIANTS = {
           (WF, 'b = 2*L*(xr - xc) + 2*M*(yr - yc) + 2*N*(zr - zc)',
            'b = 2*L*(xr + xc) + 2*M*(yr - yc) + 2*N*(zr - zc)')),
         M('sphere-direction-not-reversed',
-          (WF, 'L = -self.optic.surface_group.L[-1, :]',
-           'L = self.optic.surface_group.L[-1, :]')),
+          (WF, 'L = -self.optic.surface_group.L[-2, :]',
+           'L = self.optic.surface_group.L[-2, :]')),
+        M('sphere-direction-after-image',
+          (WF, 'L = -self.optic.surface_group.L[-2, :]',
+           'L = -self.optic.surface_group.L[-1, :]')),
+        M('sphere-leg-geometric',
+          (WF, 'return n_image * t', 'return t')),
         M('radius-missing-z',
           (WF, 'R = np.sqrt(xc**2 + yc**2 + (zc - pupil_z)**2)',
            'R = np.sqrt(xc**2 + yc**2 + pupil_z**2)')),
@@ -461,7 +470,8 @@ VARIANTS = {
           (SG, 'surfs_inverted = deepcopy(self.surfaces[::-1])',
            'surfs_inverted = self.surfaces[::-1]')),
         M('trace-generic-inplace',
-          (OP, 'Px = Px * (1 - vx)', 'Px *= (1 - vx)')),
+          (OP, 'Px = Px * np.ones_like(vx, dtype=float)',
+           'Px *= np.ones_like(vx, dtype=float)')),
         M('process-input-no-copy',
           (O + 'rays/base.py', 'return np.ravel(data).astype(float)',
            'return np.ravel(data)')),
@@ -483,7 +493,8 @@ VARIANTS = {
            '        self.surfaces.surfaces[1].is_stop = self.surfaces.surfaces[1].is_stop\n'
            '        if stop_index == 0:')),
         T('trace-generic-temp',
-          (OP, 'Px = Px * (1 - vx)', 'scale_x = 1 - vx\n        Px = Px * scale_x')),
+          (OP, 'Px = Px * np.ones_like(vx, dtype=float)',
+           'unit_x = np.ones_like(vx, dtype=float)\n        Px = Px * unit_x')),
         T('inverted-rename',
           (SG, 'temp = surf.material_pre\n            surf.material_pre = '
                'surf.material_post\n            surf.material_post = temp',
@@ -758,8 +769,9 @@ VARIANTS = {
           (ZH, "self._current_surf_data['index'] = float(data[4])",
            "self._current_surf_data['index'] = float(data[3])")),
         M('no-image-surface',
-          (CV, "        self.optic.add_surface(index=len(self.data['surfaces']))\n",
-           '')),
+          (ZH, "        if self._current_surf >= 0:\n            self.data['surfaces']"
+               "[self._current_surf] = self._current_surf_data\n\n        # sort",
+           '        # sort')),
         M('thickness-token',
           (ZH, "self._current_surf_data['thickness'] = float(data[1])",
            "self._current_surf_data['thickness'] = float(data[2])")),
@@ -924,7 +936,7 @@ _RT = {'C01': [('mutant',
             '        y, u = self._trace_generic(y0, u0, z0, wavelength, reverse=True,')]),
          ('mutant',
           'rt-f2-uses-last-y',
-          [('optiland/paraxial.py', 'f2 = -y[0] / u[-1]', 'f2 = -y[1] / u[-1]')]),
+          [('optiland/paraxial.py', 'f2 = -y[0] / u[-2]', 'f2 = -y[1] / u[-2]')]),
          ('twin',
           'rt-hexapolar-ring-count',
           [('optiland/distribution.py', 'num_theta = 6 * (i + 1)', 'num_theta = 6 * i + 1')])],
